@@ -19,6 +19,8 @@ type FuncResult struct {
 	Cover       *SolverResult
 	EncodeS     float64
 	Trusted     bool
+	BlockCovers []BlockCover
+	DeadBlocks  []string
 }
 
 // verifyFunction generates all obligations of one function under contract.
@@ -27,6 +29,7 @@ func (e *Engine) encodeFunction(fn *ssa.Function) *FuncResult {
 	c := newEnc(e, fn)
 	key := funcKey(fn)
 	fr := c.newFrame(fn, true)
+	c.topFrame = fr
 	fc := fr.fc
 	res := &FuncResult{Func: key, Enc: c}
 	if fc != nil && fc.Trusted != "" {
@@ -80,7 +83,7 @@ func (e *Engine) encodeFunction(fn *ssa.Function) *FuncResult {
 				continue
 			}
 			if g, ok := mk(st).evalBool(cl.Expr); ok {
-				c.assert(g)
+				c.assumeClause(True, g, cl.Label)
 			}
 		}
 	}
@@ -108,6 +111,8 @@ func (e *Engine) encodeFunction(fn *ssa.Function) *FuncResult {
 			// inserted as a global fact (valid in every state: it mentions no heap)
 			c.asserts = append([]Term{g}, c.asserts...)
 			c.assertBlk = append([]*ssa.BasicBlock{nil}, c.assertBlk...)
+			c.assertTag = append([]string{""}, c.assertTag...)
+			c.assertHeavy = append([]bool{false}, c.assertHeavy...)
 			for _, o := range c.obls {
 				o.NAsserts++
 			}
@@ -124,6 +129,11 @@ func (e *Engine) encodeFunction(fn *ssa.Function) *FuncResult {
 	}
 	atRet, stRet := fr.merge(edges, "ret")
 	res.CoverGuard = atRet
+	for _, b := range fn.Blocks {
+		if g, ok := fr.at[b]; ok {
+			res.BlockCovers = append(res.BlockCovers, BlockCover{Blk: b, Guard: g})
+		}
+	}
 	nres := fn.Signature.Results().Len()
 	names := resultNames(fn)
 	for i := 0; i < nres; i++ {
@@ -145,7 +155,7 @@ func (e *Engine) encodeFunction(fn *ssa.Function) *FuncResult {
 		for _, cl := range fc.clauses("ensures") {
 			if g, ok := mk(stRet).evalBool(cl.Expr); ok {
 				name := fmt.Sprintf("%s/ensures[%s]", key, cl.Label)
-				c.oblige(name, "ensures", atRet, g, cl.Text)
+				c.obligeClause(cl, name, "ensures", atRet, g, cl.Text)
 				// residual query of a recorded finding: the clause must hold outside the recorded shape
 				for _, f := range e.findings {
 					if f.Kind == "finding" && f.Obligation == name && f.Shape != "" {
@@ -166,7 +176,7 @@ func (e *Engine) encodeFunction(fn *ssa.Function) *FuncResult {
 	if fc != nil {
 		for _, cl := range fc.clauses("canary") {
 			if g, ok := mk(stRet).evalBool(cl.Expr); ok {
-				c.oblige(fmt.Sprintf("%s/canary[%s]", key, cl.Label), "canary", atRet, g, cl.Text)
+				c.obligeClause(cl, fmt.Sprintf("%s/canary[%s]", key, cl.Label), "canary", atRet, g, cl.Text)
 			}
 		}
 	}
@@ -253,12 +263,13 @@ func discharge(scratch string, results []*FuncResult, timeoutS int, all bool, fi
 			sem <- struct{}{}
 			defer func() { <-sem }()
 			q := j.fr.Enc.queryFor(j.o)
+			weak := []string{j.fr.Enc.queryForMode(j.o, modeSelf), j.fr.Enc.queryForMode(j.o, modePost), j.fr.Enc.queryForMode(j.o, modeLocal)}
 			gv := j.fr.Enc.modelVars
 			to := timeoutS
 			if j.o.Kind == "canary" && to > 4 {
 				to = 4 // canaries are expected to be refutable; a timeout is as good as sat for them
 			}
-			r := runPortfolio(scratch, j.o.Name, q, gv, to, all && j.o.Kind != "canary")
+			r := runStaged(scratch, j.o.Name, q, weak, gv, to, all && j.o.Kind != "canary")
 			j.o.Result = &r
 		}(j)
 	}
@@ -291,6 +302,9 @@ func summarize(results []*FuncResult) string {
 		}
 		if r.Cover != nil {
 			fmt.Fprintf(&b, "   cover: %s (%s %.2fs)\n", r.Cover.Status, r.Cover.Solver, r.Cover.TimeS)
+		}
+		for _, d := range r.DeadBlocks {
+			fmt.Fprintf(&b, "   DEAD %s\n", d)
 		}
 		obls := append([]*Obligation(nil), r.Obligations...)
 		sort.SliceStable(obls, func(i, j int) bool { return false })
